@@ -52,6 +52,10 @@ def run(chk):
                 procs = [("prior", gp0, mu, Ltrue)]
                 cgp = gp0.condition(jnp.asarray(y), diag=jnp.asarray(0.2)).gp     # a conditioned process is sampled too
                 procs.append(("conditioned", cgp, np.asarray(cgp.loc), np.linalg.cholesky(np.asarray(cgp.covariance))))
+                # conditioned at NEW inputs with a non-negligible predictive noise: the child always uses the dense solver built from a covariance
+                xq_ = jnp.asarray(np.sort(rng.uniform(float(np.min(x)) - 0.5, float(np.max(x)) + 0.5, size=3)))
+                cgp2 = gp0.condition(jnp.asarray(y), xq_, diag=jnp.asarray(0.35)).gp
+                procs.append(("conditioned at new inputs", cgp2, np.asarray(cgp2.loc), np.linalg.cholesky(np.asarray(cgp2.covariance))))
                 for pname, gp, mvec, Lt in procs:
                     for si, shp in enumerate(shapes):
                         key = jax.random.PRNGKey(100 * ci + si)
@@ -59,10 +63,11 @@ def run(chk):
                         hist[f"{sname}/{pname}"] = hist.get(f"{sname}/{pname}", 0) + 1
                         s1 = np.asarray(gp.sample(key, shp))
                         s2 = np.asarray(gp.sample(key, shp))
-                        full = (n,) if shp is None else (n,) + tuple(shp)
+                        npts = len(mvec)
+                        full = (npts,) if shp is None else (npts,) + tuple(shp)
                         z = np.asarray(jax.random.normal(key, shape=full, dtype=jnp.float64))
                         want = mvec + np.moveaxis(np.tensordot(Lt, z, axes=(1, 0)), 0, -1)
-                        exp_shape = (n,) if shp is None else tuple(shp) + (n,)
+                        exp_shape = (npts,) if shp is None else tuple(shp) + (npts,)
                         if s1.shape != exp_shape:
                             oracle_bad.append(dict(info, op="shape", expected=list(exp_shape), observed=list(s1.shape)))
                             continue
